@@ -691,18 +691,23 @@ static int mode_order(int cases, int base_exp)
         int geometry = rng.range(0, 2), problem = rng.range(0, 2), alpha = rng.range(0, 3), beta = rng.range(0, 1), dirbc = rng.range(0, 1), strat = rng.range(0, 1);
         if (c == 0) { geometry = 2; problem = 1; alpha = 0; beta = 0; } // probe of known finding F9
         else if (geometry == 2 && alpha == 0) alpha = rng.range(1, 3);    // … and only there: a configuration of that class would mask any other defect
+        // with a Dirichlet inner boundary the inner radius is varied too: at R0 = 1e-5 the interior boundary data hardly matter
+        const double R0 = dirbc ? rng.pick(std::vector<double>{1e-5, 0.05, 0.1}) : 1e-5;
         for (int extrap = 0; extrap < 2; extrap++) {
             std::string e2, einf;
             for (int div = 0; div < 3; div++) {
                 Opts o;
                 o.set("verbose", 0); o.set("nr_exp", base_exp); o.set("ntheta_exp", -1); o.set("divideBy2", div); o.set("geometry", geometry);
                 o.set("kappa_eps", 0.3); o.set("delta_e", geometry == 2 ? 1.4 : 0.2); o.set("problem", problem); o.set("alpha_coeff", alpha); o.set("beta_coeff", beta);
-                o.set("alpha_jump", 0.7081 * 1.3); o.set("DirBC_Interior", dirbc); o.set("R0", 1e-5); o.set("stencilDistributionMethod", strat);
+                o.set("alpha_jump", 0.7081 * 1.3); o.set("DirBC_Interior", dirbc); o.set("R0", R0); o.set("stencilDistributionMethod", strat);
                 // the extrapolated variant cycles through the three extrapolation modes and both FMG settings
                 const int mode = extrap == 0 ? 0 : 1 + (c % 3), fmg = extrap == 0 ? 0 : (c / 3) % 2;
                 o.set("cacheDensityProfileCoefficients", 1); o.set("cacheDomainGeometry", 1); o.set("maxOpenMPThreads", 4); o.set("extrapolation", mode);
                 o.set("FMG", fmg); o.set("FMG_iterations", 2); o.set("FMG_cycle", 0); o.set("multigridCycle", 0); o.set("preSmoothingSteps", 1); o.set("postSmoothingSteps", 1); o.set("maxIterations", 150);
                 o.set("absoluteTolerance", 1e-13); o.set("relativeTolerance", 1e-12); o.set("residualNormType", 0); o.set("maxLevels", -1);
+                // the discretisation error does not depend on the cycle: a W(2,2) cycle keeps the annulus-like cases away from the
+                // diverging V(1,1) configuration class of known finding F10
+                if (R0 > 1e-3) { o.set("multigridCycle", 1); o.set("preSmoothingSteps", 2); o.set("postSmoothingSteps", 2); }
                 GMGPolar g;
                 o.apply(g);
                 g.setup();
@@ -711,7 +716,7 @@ static int mode_order(int cases, int base_exp)
                 e2 += (div ? "," : "") + hex(a ? *a : -1.0);
                 einf += (div ? "," : "") + hex(b ? *b : -1.0);
             }
-            printf("ORD geometry=%d problem=%d alpha=%d beta=%d dirbc=%d strat=%d extrap=%d mode=%d fmg=%d base_exp=%d e2=%s einf=%s\n", geometry, problem, alpha, beta, dirbc, strat, extrap,
+            printf("ORD geometry=%d problem=%d alpha=%d beta=%d dirbc=%d R0=%g strat=%d extrap=%d mode=%d fmg=%d base_exp=%d e2=%s einf=%s\n", geometry, problem, alpha, beta, dirbc, R0, strat, extrap,
                    extrap == 0 ? 0 : 1 + (c % 3), extrap == 0 ? 0 : (c / 3) % 2, base_exp, e2.c_str(), einf.c_str());
         }
     }
